@@ -9,12 +9,13 @@ open PwVerif PwVerif.FuncWrap PwVerif.PyAst PwVerif.Kinds PwVerif.DcMro PwVerif.
 
     cfg <recast 0|1> <cachedPanel 0|1> <dictByHash 0|1> <dcByName 0|1> <walkNested 0|1> <byteCols 0|1>
         <variadicByName 0|1> <posOnlyByKeyword 0|1> <rawDataclassFields 0|1>
+        <runNamesFree 0|1> <dictSameByEq 0|1>
     srcline <code points of one line of the dedented source, comma separated | ->     (appends a source line)
     stmt <depth> leaf | inner0 | inner1 | retbare | retother <l0> <c0> <l1> <c1> | rettuple (<l0> <c0> <l1> <c1>)*
                                  (the statement tree of the function body as python's `ast` gives it, in pre-order;
                                  inner1 = nested def / async def / class; when present, `show` reads the return
                                  statements off this tree and the source lines instead of the retstmt lines)
-    regkey <class name> <defining object>   (the next `def dict` / `def dc` goes through the class registry: the name
+    regkey <class name> <defining object> [<its class under `==` of the defaults>]   (the next `def dict` / `def dc` goes through the class registry: the name
                                  the factory derives — hash of the specification, `__name__` of the dataclass — and
                                  a number standing for the defining object itself)
     def fn <validate 0|1> <declared: - | l1,l2,…> <ret>*
@@ -190,6 +191,7 @@ def parseDField (w : String) : Option DField :=
 structure St where
   chain : List DClass := []
   rawDc : Bool := true
+  sameByEq : Bool := true
   src : List (List Char) := []
   stmts : List (Nat × STok) := []
   kinds : List PKind := []
@@ -294,8 +296,8 @@ def step (s : St) (ws : List String) : St × List String :=
   | "cfg" :: flags =>
     let bit (w : String) : Option Bool := if w == "1" then some true else if w == "0" then some false else none
     match flags.mapM bit with
-    | some [a, b, c, d, e, f, g, h, i] =>
-      ({ s with cfg := ⟨a, b, c, d⟩, scfg := ⟨e, f⟩, kcfg := ⟨g, h⟩, rawDc := i }, [])
+    | some [a, b, c, d, e, f, g, h, i, j, k] =>
+      ({ s with cfg := ⟨a, b, c, d⟩, scfg := ⟨e, f⟩, kcfg := ⟨g, h, j⟩, rawDc := i, sameByEq := k }, [])
     | _ => (s, ["bad-op"])
   | ["srcline", cps] =>
     match s.kind with
@@ -328,6 +330,11 @@ def step (s : St) (ws : List String) : St × List String :=
     match ident.toNat? with
     | some i => ({ s with key := some (name, i) }, [])
     | none => (s, ["bad-op"])
+  | ["regkey", name, ident, eqc] =>
+    -- the registry of a tree that compares defaults with `==` cannot tell two objects of one `==` class apart
+    match ident.toNat?, eqc.toNat? with
+    | some i, some c => ({ s with key := some (name, if s.sameByEq then c else i) }, [])
+    | _, _ => (s, ["bad-op"])
   | "def" :: "fn" :: validate :: decl :: rets =>
     match (if validate == "1" then some true else if validate == "0" then some false else none),
           rets.mapM parseRet with
